@@ -139,6 +139,42 @@ def gen_number(rng, which, sa, sb, malformed):
     return rho * prod
 
 
+def num_type(rng, v):
+    """ARGUMENT TYPES: the numeric type in which the number is handed over ([] = Python float);
+    only types that represent the binary64 value exactly, so the model sees the same number"""
+    if v is None or rng.random() < 0.5 or not math.isfinite(v):
+        return []
+    ts = ["np.float64", "Fraction"]
+    if float(v).is_integer() and abs(v) < 2 ** 31:
+        ts += ["int", "np.int64", "np.int32", "int", "np.int64"]
+    # np.float32 is deliberately absent: by numpy's promotion rules (a Python float is "weak")
+    # `np.float32(rho) * (sigma_a * sigma_b)` is evaluated in binary32, so the record is consistent
+    # only to single precision (relative 6e-8) - numpy semantics, not a statement about the store
+    return [rng.choice(ts)]
+
+
+def mk_num(b, typ):
+    v = unbits(b)
+    if not typ:
+        return v
+    if typ == "int":
+        return int(v)
+    if typ == "Fraction":
+        from fractions import Fraction
+        return Fraction(v)
+    import numpy as np
+    return {"np.float64": np.float64, "np.float32": np.float32,
+            "np.int64": lambda x: np.int64(int(x)), "np.int32": lambda x: np.int32(int(x))}[typ](v)
+
+
+def fmt_num(b, typ):
+    v = unbits(b)
+    if not typ:
+        return repr(v)
+    return "{}({!r})".format(typ, int(v) if typ in ("int", "np.int64", "np.int32") else v) \
+        if typ != "Fraction" else "Fraction({!r})".format(v)
+
+
 def gen_case(rng, malformed=False, long=False):
     qs = gen_quantities(rng, malformed)
     std = [cur_std(x) for x in qs]
@@ -165,7 +201,8 @@ def gen_case(rng, malformed=False, long=False):
             if v is None and qs[a]["kind"] == "repeated" and qs[b]["kind"] == "repeated" and \
                     not (qs[a]["plain"] and qs[b]["plain"]) and len(qs[a]["raw"]) == len(qs[b]["raw"]):
                 v = 0.25 * (std[a] * std[b] if which == "cov" else 1.0)
-            ops.append(["set", which, rng.choice(["fn", "meth"]), a, b, None if v is None else bits(v)])
+            ops.append(["set", which, rng.choice(["fn", "meth"]), a, b, None if v is None else bits(v)]
+                       + num_type(rng, v))
         elif r < 0.72:
             a, b = rng.randrange(nq), rng.randrange(nq)
             ops.append(["get", rng.choice(["corr", "cov"]), rng.choice(["fn", "meth"]), a, b])
@@ -178,7 +215,9 @@ def gen_case(rng, malformed=False, long=False):
             s = rng.choice([0.5, 0.25, 1.0, H.rand_pos(rng), 0.0 if rng.random() < 0.3 else 0.7])
             if rng.random() < (0.3 if malformed else 0.1):
                 s = -abs(s) - 0.1
-            ops.append(["setstd", i, bits(s)])
+            # (no Fraction here: a Fraction uncertainty makes sigma_a*sigma_b exact rational
+            # arithmetic, and decisions at |rho| = 1 are then not the binary64 ones of the model)
+            ops.append(["setstd", i, bits(s)] + [t for t in num_type(rng, s) if t != "Fraction"])
             if s >= 0:
                 std[i] = s
         else:
@@ -200,14 +239,14 @@ def describe(c):
     ops = []
     for o in c["ops"]:
         if o[0] == "set":
-            v = "" if o[5] is None else ", {!r}".format(unbits(o[5]))
+            v = "" if o[5] is None else ", " + fmt_num(o[5], o[6] if len(o) > 6 else None)
             ops.append(("q.set_{w}(q{a}, q{b}{v})" if o[2] == "fn" else "q{a}.set_{w}(q{b}{v})").format(
                 w={"corr": "correlation", "cov": "covariance"}[o[1]], a=o[3], b=o[4], v=v))
         elif o[0] == "get":
             ops.append(("q.get_{w}(q{a}, q{b})" if o[2] == "fn" else "q{a}.get_{w}(q{b})").format(
                 w={"corr": "correlation", "cov": "covariance"}[o[1]], a=o[3], b=o[4]))
         elif o[0] == "setstd":
-            ops.append("q{}.error = {!r}".format(o[1], unbits(o[2])))
+            ops.append("q{}.error = {}".format(o[1], fmt_num(o[2], o[3] if len(o) > 3 else None)))
         elif o[0] == "reset":
             ops.append("q.reset_correlations()")
     return "; ".join(qs) + " :: " + "; ".join(ops)
@@ -256,14 +295,14 @@ def observe(q, c):
             outs.append(s)
         elif o[0] == "setstd":
             def f():
-                objs[o[1]].error = unbits(o[2])
+                objs[o[1]].error = mk_num(o[2], o[3] if len(o) > 3 else None)
             s, v = H.call(f)
             outs.append(s)
             if s != "ok":
                 excs[v] += 1
         elif o[0] == "set":
-            _, w, form, a, b, v = o
-            args = () if v is None else (unbits(v),)
+            _, w, form, a, b, v = o[:6]
+            args = () if v is None else (mk_num(v, o[6] if len(o) > 6 else None),)
             name = "set_correlation" if w == "corr" else "set_covariance"
             if form == "fn":
                 s, e = H.call(lambda: getattr(q, name)(objs[a], objs[b], *args))
@@ -405,7 +444,7 @@ def spec_check(c, o):
                 stds[op[1]] = unbits(op[2])
             # requests that must be rejected
             if op[0] == "set":
-                _, w, form, a, b, v = op
+                _, w, form, a, b, v = op[:6]
                 ka, kb = qs[a]["kind"], qs[b]["kind"]
                 must = None
                 if ka not in MEASURED or kb not in MEASURED:
@@ -464,7 +503,7 @@ def spec_check(c, o):
                     fail("reset", "pairs read non-zero after reset_correlations", i, impl=nz[:3])
                     return fails
             elif last[0] == "set":
-                _, w, form, a, b, v = last
+                _, w, form, a, b, v = last[:6]
                 if last_out != "ok" and changed:
                     fail("reject-changed", "a rejected request changed the records of {}".format(
                         changed[:3]), i, impl=[S[x][y] for x, y in changed[:3]])
@@ -553,6 +592,9 @@ def run_cases(ctx, cases, ref=False, with_model=True):
             elif op[0] == "get":
                 tag = "get:{}:{}".format(op[1], op[2])
             d["op:{}:{}".format(tag, io if isinstance(io, str) else "number")] += 1
+            typ = op[6] if op[0] == "set" and len(op) > 6 else op[3] if op[0] == "setstd" and len(op) > 3 else None
+            if typ:
+                d["argtype:{}:{}".format(op[0], typ)] += 1
         for k, v in o["exceptions"].items():
             d["exception:" + k] += v
         if nontrivial(c, o):
